@@ -38,9 +38,17 @@ PADS = ['', 'x' * 33, 'x' * 36, 'x' * 39, 'x' * 70]
 
 def ob_redact(p: str, s: str, v: str, vkind: int, pad: int = 0) -> bool:
     """a resource whose name contains 'secret' is listed with the marker and none of its value"""
-    key = PADS[pad] + p + 'secret' + s
-    val = 'V' + v + 'W'                       # a recognisable value: V..W does not occur in the marker or key alphabet
-    obj = [val, val.encode('utf8'), [val, 1], {'k': val}, _ReprIs(val), (val,)][R(vkind)]
+    vkind, pad = R(vkind), R(pad)
+    if pad % 2:
+        # the long-value form (beyond the 70-character truncation): p, s, v are realised and the run is native
+        p, s, v = R(p), R(s), R(v)
+        with untraced():
+            return _redact(PADS[pad] + p + 'secret' + s, 'V' + v + 'W' * 90, vkind)
+    return _redact(PADS[pad] + p + 'secret' + s, 'V' + v + 'W', vkind)
+
+
+def _redact(key, val, vkind):
+    obj = [val, val.encode('utf8'), [val, 1], {'k': val}, _ReprIs(val), (val,)][vkind]
     info = get_resource_info(_AppStub([(key, obj), ('plain', 'visible')]))
     if len(info) != 2:
         return False
@@ -89,7 +97,8 @@ class _Obj(object):
 
 
 def _values():
-    return [MARK, MARK.encode('utf8'), 12345678901, [1, MARK], {'inner': MARK}, _Obj(), (MARK, MARK), '', None, {'deep': [{'x': MARK}]}]
+    return [MARK, MARK.encode('utf8'), 12345678901, [1, MARK], {'inner': MARK}, _Obj(), (MARK, MARK), '', None, {'deep': [{'x': MARK}]},
+            'long ' * 20 + MARK, [MARK] * 12]
 
 
 class _FailPeri(MetaPeripheral):
@@ -102,11 +111,17 @@ class _FailPeri(MetaPeripheral):
     def get_context(self):
         if self.mode == 1:
             raise RuntimeError('ctx boom <b>')
+        if self.mode == 5:
+            raise NotImplementedError          # an exception without any message
+        if self.mode == 6:
+            raise KeyError()
         return {'ok': 1}
 
     def render_main_page_html(self, context):
         if self.mode == 2:
             raise ValueError('render boom')
+        if self.mode == 7:
+            assert False
         return '<p>fine</p>'
 
     def get_general_items(self, context):
